@@ -146,12 +146,15 @@ def vo_fresh(rel):
 # ----------------------------------------------------------------------------
 # running the implementation
 # ----------------------------------------------------------------------------
-def run_harness(exe, prop, seed, tier, n=0, extra_env=None, timeout=3600):
+def run_harness(exe, prop, seed, tier, n=0, extra_env=None, timeout=1500):
     env = dict(GOENV)
     if extra_env:
         env.update(extra_env)
-    p = subprocess.run([exe, prop, str(seed), tier, str(n)], stdout=subprocess.PIPE,
-                       stderr=subprocess.PIPE, text=True, timeout=timeout, env=env)
+    try:
+        p = subprocess.run([exe, prop, str(seed), tier, str(n)], stdout=subprocess.PIPE,
+                           stderr=subprocess.PIPE, text=True, timeout=timeout, env=env)
+    except subprocess.TimeoutExpired:
+        return [], [], {}, "harness did not finish within %d s (the implementation no longer terminates in bounded time on some input)" % timeout
     cases, viols, stats = [], [], {}
     for ln in p.stdout.splitlines():
         if not ln.startswith("{"):
